@@ -178,6 +178,7 @@ def sugar(rnd, d: int = 0, allow_bool: bool = True, multiline: bool = False) -> 
             ("p'/a' '/b'", "'/a' '/b'"), ('p"~" "/x" \'y\'', '"~" "/x" \'y\''), ("pr'\\d' 'e'", "r'\\d' 'e'"), ("p'a' f'{x}'", "'a' f'{x}'"), ("pf'{r}/etc/' f'{n}.toml'", "f'{r}/etc/' f'{n}.toml'"),
             ("f'{x}/' pf'{y}'", "f'{x}/' f'{y}'"), ("'a' pf'{x}' 'c'", "'a' f'{x}' 'c'"), ("pf'{a}' 'b'", "f'{a}' 'b'"), ("pf'{a}' f'{b}' f'{c!r}'", "f'{a}' f'{b}' f'{c!r}'"), ("p'''m''' 'n'", "'''m''' 'n'"),
             ("fp'{a}' \"q\" f\"{b}\"", "f'{a}' \"q\" f\"{b}\""), ("pf'{a}/' f'{b}/' 'c' f'{d}'", "f'{a}/' f'{b}/' 'c' f'{d}'"),
+            ("pf'/a' f\"{'x'}\"", "f'/a' f\"{'x'}\""), ("pf'{r}' f\"{d['k']}{\"s\" 't'}\"", "f'{r}' f\"{d['k']}{\"s\" 't'}\""), ("p'/a' f\"{'x' + y}\" 'z'", "'/a' f\"{'x' + y}\" 'z'"),
         ]
         t, tr = rnd.choice(forms)
         return Sugar(t, f"__xonsh__.path_literal({tr})", "atom", "Call", "p-concat")
